@@ -6,11 +6,11 @@ pub type Trace = Arc<Mutex<Vec<usize>>>;
 
 pub enum Kind { Rnd, Sticky(u64), Guided(Vec<usize>), Withhold(usize), Inject { base: Vec<usize>, k: usize, task: usize }, Freeze { base: Vec<usize>, k: usize, dur: usize } }
 
-pub struct Sched { pub kind: Kind, pub seed: u64, rng: u64, started: bool, pub trace: Trace, pos: usize, injected_done: bool, pub diverged: Arc<Mutex<Option<usize>>> }
+pub struct Sched { pub kind: Kind, pub seed: u64, rng: u64, started: bool, pub trace: Trace, pos: usize, injected_done: bool, pub diverged: Arc<Mutex<Option<usize>>>, spurious: bool }
 
 impl Sched {
     pub fn new(kind: Kind, seed: u64) -> Sched {
-        Sched { kind, seed, rng: 0, started: false, trace: Arc::new(Mutex::new(vec![])), pos: 0, injected_done: false, diverged: Arc::new(Mutex::new(None)) }
+        Sched { kind, seed, rng: 0, started: false, trace: Arc::new(Mutex::new(vec![])), pos: 0, injected_done: false, diverged: Arc::new(Mutex::new(None)), spurious: false }
     }
     fn next(&mut self) -> u64 { let mut x = self.rng; if x == 0 { x = 0x9E3779B97F4A7C15; } x ^= x << 13; x ^= x >> 7; x ^= x << 17; self.rng = x; x }
 }
@@ -21,10 +21,17 @@ impl Scheduler for Sched {
         self.started = true;
         self.rng = (self.seed.wrapping_add(1)).wrapping_mul(0x9E3779B97F4A7C15) ^ 0xA5A5_5A5A_1234_5678;
         self.next(); self.next();
+        // a parked thread may return from park() without an unpark, but nothing guarantees that it ever does: spurious returns are
+        // explored in one execution out of four (and there rarely); in the others a thread that misses its unpark stays parked
+        self.spurious = (self.next() >> 20) % 4 == 0;
         Some(Schedule::new(self.seed))
     }
     fn next_task(&mut self, runnable: &[&Task], cur: Option<TaskId>, yielding: bool) -> Option<TaskId> {
-        let ids: Vec<usize> = runnable.iter().map(|t| usize::from(t.id())).collect();
+        // the runtime also offers blocked tasks that may wake spuriously (parked threads): `all_ids` has them, `ids` only on a spurious turn
+        let all_ids: Vec<usize> = runnable.iter().map(|t| usize::from(t.id())).collect();
+        let real: Vec<usize> = runnable.iter().filter(|t| t.runnable()).map(|t| usize::from(t.id())).collect();
+        let spur_turn = real.len() < all_ids.len() && self.spurious && (self.next() >> 20) % 16 == 0;
+        let ids: Vec<usize> = if spur_turn || real.is_empty() { all_ids.clone() } else { real };
         let choice = match &self.kind {
             Kind::Rnd => ids[(self.next() >> 11) as usize % ids.len()],
             Kind::Sticky(pct) => {
@@ -46,7 +53,7 @@ impl Scheduler for Sched {
                 let (k, task) = (*k, *task);
                 let c = cur.map(usize::from);
                 let fair: Vec<usize> = { let v: Vec<usize> = ids.iter().copied().filter(|x| !(yielding && Some(*x) == c)).collect(); if v.is_empty() { ids.clone() } else { v } };
-                if self.pos < k { let w = base.get(self.pos).copied(); self.pos += 1; match w { Some(w) if ids.contains(&w) => w, _ => usize::MAX } }
+                if self.pos < k { let w = base.get(self.pos).copied(); self.pos += 1; match w { Some(w) if all_ids.contains(&w) => w, _ => usize::MAX } }
                 else if ids.contains(&task) && !self.injected_done && !(yielding && c == Some(task)) { task }      // until it blocks, parks or spins
                 else {
                     self.injected_done = true;
@@ -60,7 +67,7 @@ impl Scheduler for Sched {
                 let (k, dur) = (*k, *dur);
                 let c = cur.map(usize::from);
                 let fair: Vec<usize> = { let v: Vec<usize> = ids.iter().copied().filter(|x| !(yielding && Some(*x) == c)).collect(); if v.is_empty() { ids.clone() } else { v } };
-                if self.pos < k { let w = base.get(self.pos).copied(); self.pos += 1; match w { Some(w) if ids.contains(&w) => w, _ => usize::MAX } }
+                if self.pos < k { let w = base.get(self.pos).copied(); self.pos += 1; match w { Some(w) if all_ids.contains(&w) => w, _ => usize::MAX } }
                 else if self.pos < k + dur {
                     let frozen = base.get(k).copied().unwrap_or(usize::MAX);
                     self.pos += 1;
@@ -73,7 +80,7 @@ impl Scheduler for Sched {
                 let want = list.get(self.pos).copied();
                 self.pos += 1;
                 match want {
-                    Some(w) if ids.contains(&w) => w,
+                    Some(w) if all_ids.contains(&w) => w,
                     _ => usize::MAX
                 }
             }
